@@ -26,6 +26,7 @@ DECIDED = [
     "PROV-5 the three cardinality fields are stored only as format_cardinality(v) (or None in __init__); refused assignment keeps the old value",
     "ORD-2 _cardinality_validation reports iff count < min or count > max; rule functions pass matching field/attribute/rank/id",
     "ENF-1 no code but getters, the three rules and the serialisers reads a cardinality; the setters' re-validation cannot raise",
+    "RESET-1 (shared with C19) a Validation object that is run again starts from an empty issue list: the warnings reported are those of the current state",
     "ORD-3 both parse_cardinality functions invert the writers' rendering for every normal-form pair",
     "TAB-5 cardinalities are format keys, readable attributes and constructor keywords",
 ]
@@ -41,6 +42,8 @@ def run(prog, rep):
     rep.not_decided = NOT_DECIDED
     format_cardinality_rule(prog, rep)
     cardinality_validation_rule(prog, rep)
+    from .c19 import reset1_rule
+    reset1_rule(prog, rep, "RESET-1")
     cardinality_roundtrip(prog, rep, which=("xml", "dict"))
     tabs, _ = ct.tab5_format_vs_class(prog, rep)
 
